@@ -37,7 +37,7 @@ import (
 )
 
 const preamble = `From Coq Require Import String List NArith ZArith.
-From Fabio Require Import Lib.Outcome Lib.Bytes Lib.Pack Model.RouteCmd Model.Consul Model.Watch Model.RegistryTable Check.C01.
+From Fabio Require Import Lib.Outcome Lib.Bytes Lib.Pack Model.RouteCmd Model.Consul Model.Watch Model.RegistryTable Model.OperatorText Check.C01.
 Import ListNotations.
 Local Open Scope N_scope.
 `
@@ -843,6 +843,16 @@ func partB(run *vh.Run) {
 		hists = append(hists, h)
 	}
 
+	// hash-tag histories (round 7): plain service tags and options of routing tags with a blank
+	// followed by '#' - data between the quotes of the generated command ("build #42", "x #", an
+	// option "#1"); every registration is expressible, so every healthy instance has to be routed.
+	// The pushed configs also go through the real watchBackend loop (installed table).  Random
+	// choices from a source of their own: the inputs of the classes above do not change.
+	hashTagHistories(run, func(class string, strict bool, monitors int, states []regState) {
+		hists = append(hists, hist{class: class, prefix: tagPrefix, status: []string{"passing"}, strict: strict,
+			monitors: monitors, installed: true, states: states})
+	})
+
 	type result struct {
 		texts      []string
 		cats       [][]*api.CatalogService
@@ -1135,7 +1145,10 @@ func e2eCase(run *vh.Run, prefix string, status []string, strict bool, checks []
 	}
 	sort.Strings(bl)
 	envT := "(Some [(" + vh.HxS("DC") + ", " + vh.HxS("dc1") + ")])"
-	for _, m := range manual { // the operator's text: destinations and sources of its commands
+	for mi, m := range manual { // the operator's text: destinations and sources of its commands
+		if mi > 0 { // manual[1], manual[2]: the same text as commands (Coq term, human-readable)
+			break
+		}
 		for _, line := range strings.Split(m, "\n") {
 			fs := strings.Fields(line)
 			for _, f := range fs {
@@ -1164,6 +1177,14 @@ func e2eCase(run *vh.Run, prefix string, status []string, strict bool, checks []
 	}
 	sort.Strings(bl)
 	return func(class string, dump [][4]string, accepted bool, prev ...[][4]string) {
+		if len(manual) > 2 { // ... with the operator's text given as the commands it was written from (round 7)
+			run.Add(class, vh.App("CE2EO", envT, vh.HxS(prefix), vh.List(ul), strs(bl), strs(status), vh.Bool(strict),
+				coqChecks(checks), vh.List(items), manual[1], vh.HxS(manual[0]), coqTbl(prev[0]), coqTbl(dump)),
+				map[string]interface{}{"status": status, "strict": strict, "checks": humanChecks(checks), "catalog": human,
+					"pushed": strings.Split(text, "\n"), "operator_commands": strings.Split(manual[2], "\n"),
+					"manual": strings.Split(manual[0], "\n"), "previous_table": prev[0], "table": dump})
+			return
+		}
 		if len(manual) > 0 { // through the real watchBackend with the operator's text on top
 			run.Add(class, vh.App("CE2EM", envT, vh.HxS(prefix), vh.List(ul), strs(bl), strs(status), vh.Bool(strict),
 				coqChecks(checks), vh.List(items), vh.HxS(manual[0]), coqTbl(prev[0]), coqTbl(dump)),
@@ -1724,6 +1745,7 @@ func main() {
 	partA(run)
 	partB(run)
 	partM(run)
+	partO(run)
 	partC(run)
 	partD(run)
 	run.Finish(preamble, run.Scale(110, 1800))
